@@ -59,13 +59,20 @@ def hidden_roots(table, default, user):
     return roots
 
 
+ITEM_PATHS = [["u", "c1", "a.ics"], ["u", "c1", "b.ics"], ["u", "c2", "a.ics"], ["u", "ab", "k.vcf"], ["v", "c1", "a.ics"]]
+
+
 def gen_policy(rng):
-    default = rng.choice(["", "", "", "RrWw", "r"])
+    default = rng.choice(["", "", "", "RrWw", "r", "i", "w"])
     table = {}
     for user in ("u", "v", ""):
         for p in PATHS:
             if rng.random() < 0.55:
                 table[(user, tuple(p))] = rng.choice(PERMS)
+        # policies may also answer for the paths of single objects (a regex such as `public(/.*)?` does)
+        for p in ITEM_PATHS:
+            if rng.random() < 0.25:
+                table[(user, tuple(p))] = rng.choice(["i", "ri", "r", "w", "rw", "", "RrWw"])
     return table, default
 
 
